@@ -590,6 +590,8 @@ pub struct SdList {
     pub in_disclosure: bool,
     /// per entry: Some(member index in U's object order) for a real digest, None for a decoy
     pub entries: Vec<Option<usize>>,
+    /// per entry: rank of the hidden member's NAME among the object's member names (byte order)
+    pub name_ranks: Vec<Option<usize>>,
 }
 
 #[derive(Default, Debug)]
@@ -777,10 +779,14 @@ fn walk(
                     .map(|e| e.as_ref().and_then(|n| names.iter().position(|k| *k == n)))
                     .collect();
                 if !entries.is_empty() {
+                    let mut sorted: Vec<&String> = names.clone();
+                    sorted.sort();
+                    let name_ranks: Vec<Option<usize>> = list_entries.iter().map(|e| e.as_ref().and_then(|n| sorted.iter().position(|k| *k == n))).collect();
                     l.sd_lists.push(SdList {
                         at: path_str(p),
                         in_disclosure: l.disc_depth > 0,
                         entries,
+                        name_ranks,
                     });
                 }
             }
